@@ -9,6 +9,10 @@ namespace Sf
 
 /-! ## invariant -/
 
+/-- the PEAK table, if the handle carries one (WAV float / double data written in SFM_WRITE mode and opened SFM_RDWR):
+    one entry per channel, and the chunk sits in front of the data (so the header length counts it) -/
+def PeakOk (h : H) : Prop := ∀ ps, h.peak = some ps → ps.length = h.ch ∧ h.peakAtStart = true
+
 /-- what may follow the audio data in the store: nothing, or — in a WAV only — one zero byte: the RIFF pad byte behind an
     odd-length data chunk -/
 def TailOk (h : H) (t : Nat) : Prop := t = 0 ∨ (t = 1 ∧ h.container = .wav)
@@ -24,7 +28,7 @@ structure RwView (h : H) (s : Store) (R W F : Nat) (hdr D : List Byte) : Prop wh
   wpos : h.wpos = W
   frames : h.frames = F
   doff : h.dataoffset = (hdrLenOf h : Nat)
-  peak : h.peak = none
+  peak : PeakOk h
   dataend : h.container ≠ .wav → h.dataend = 0
   bytes : ∃ t, s.bytes = hdr ++ (D ++ zeros t) ∧ TailOk h t
   hlen : hdr.length = hdrLenOf h
@@ -34,7 +38,7 @@ structure RwView (h : H) (s : Store) (R W F : Nat) (hdr D : List Byte) : Prop wh
   syncR : h.lastOp = .r → R < F → s.pos = hdrLenOf h + R * h.bw
 
 /-- the invariant: positions and frame count are non-negative, the data offset is the header length the container
-    writes, no PEAK table, `dataend = 0` (RAW, AU), the store holds the header region followed by exactly `frames`
+    writes, a PEAK table (if any) of one entry per channel in front of the data, `dataend = 0` (RAW, AU), the store holds the header region followed by exactly `frames`
     whole frames and at most the zero pad byte (WAV), and the descriptor position agrees with the pointer of the
     last operation -/
 def RwInv (h : H) (s : Store) : Prop := ∃ R W F hdr D, RwView h s R W F hdr D
@@ -51,7 +55,7 @@ theorem RwInv.toHInv {h : H} {s : Store} (i : RwInv h s) : HInv h s := by
 /-- in plain terms -/
 theorem RwInv.gives {h : H} {s : Store} (i : RwInv h s) :
     h.mode = .rw ∧ 0 < h.ch ∧ 0 < h.enc.nbytes ∧ 0 ≤ h.rpos ∧ 0 ≤ h.wpos ∧ 0 ≤ h.frames ∧
-    h.dataoffset = (hdrLenOf h : Nat) ∧ h.peak = none ∧ (h.container ≠ .wav → h.dataend = 0) ∧
+    h.dataoffset = (hdrLenOf h : Nat) ∧ PeakOk h ∧ (h.container ≠ .wav → h.dataend = 0) ∧
     (∃ t : Nat, (s.bytes.length : Int) = h.dataoffset + h.frames * (h.bw : Int) + t ∧ (t = 0 ∨ (t = 1 ∧ h.container = .wav)) ∧
       s.bytes.drop (s.bytes.length - t) = zeros t) ∧
     h.dataoffset ≤ (s.pos : Int) ∧
